@@ -94,7 +94,7 @@ def shrink(case):
         for k in ('nonce', 'lifetime', 'hop_limit'):
             if p[k] is not None:
                 yield dict(case, param=dict(p, **{k: None}))
-    for k in ('name_form', 'fh_form', 'key_name'):
+    for k in ('name_form', 'fh_form', 'key_name', 'payload_form', 'key_form', 'obj_form', 'pre', 'parse_form'):
         if case.get(k) is not None:
             yield {a: b for a, b in case.items() if a != k}
     if case['signer'][0] == 'custom':
@@ -104,23 +104,34 @@ def shrink(case):
         yield dict(case, name=case['name'][1:])
 
 
+def _strict(case, wire):
+    """independent structural check: one well-formed element, every length exact and shortest"""
+    from ndn.encoding import ndn_format_0_3 as f
+    cls, outer = (f.DataPacketValue, 6) if case['pkt'] == 'data' else (f.InterestPacketValue, 5)
+    fs = T.class_schema(cls)
+    try:
+        vals = S.strict_packet(fs, wire, outer, False, True)
+        body = b''.join(T.ref_encode(s, v) for s, v in zip(fs, vals))
+        canon = T.tl(outer) + T.tl(len(body)) + body
+        return 'ok' if canon == wire else 'not-minimal-or-out-of-order'
+    except S.Reject as r:
+        return 'rej:' + str(r)
+
+
 def run_impl(case):
     made = PK.make_packet(case)
     out = {'made': made}
     if made['made'][0] == 'ok':
         wire = bytes.fromhex(made['made'][1])
-        out['parsed'] = PK.parse_packet(case['pkt'], wire)
-        # independent structural check: one well-formed element, every length exact and shortest
-        from ndn.encoding import ndn_format_0_3 as f
-        cls, outer = (f.DataPacketValue, 6) if case['pkt'] == 'data' else (f.InterestPacketValue, 5)
-        fs = T.class_schema(cls)
-        try:
-            vals = S.strict_packet(fs, wire, outer, False, True)
-            body = b''.join(T.ref_encode(s, v) for s, v in zip(fs, vals))
-            canon = T.tl(outer) + T.tl(len(body)) + body
-            out['strict'] = 'ok' if canon == wire else 'not-minimal-or-out-of-order'
-        except S.Reject as r:
-            out['strict'] = 'rej:' + str(r)
+        out['parsed'] = PK.parse_packet(case['pkt'], wire, case.get('parse_form'))
+        out['strict'] = _strict(case, wire)
+        first = made.get('first')
+        if case.get('pre') == 'same' and first is not None and first[0] == 'ok':
+            # the earlier, identical call (same argument objects): its packet is judged as well
+            w1 = bytes.fromhex(first[1])
+            p1 = PK.parse_packet(case['pkt'], w1)
+            out['first'] = {'parsed': {k: p1.get(k) for k in ('res', 'err', 'name', 'content', 'values', 'api', 'SV')},
+                            'strict': _strict(case, w1), 'wire': None if w1 == wire else first[1]}
     return out
 
 
@@ -193,10 +204,26 @@ def oracle(case, impl):
     if m['made'][0] == 'err':
         if exp_err and m['made'][1] == exp_err:
             return None
-        return f"building a legal packet raised {m['made'][1]}"
-    if impl['strict'] != 'ok':
-        return f"the wire is not exactly one well-formed, exactly-sized, minimal TLV element: {impl['strict']}"
-    p = impl['parsed']
+        return f"building a legal packet raised {m['made'][1]}" + \
+            (f" (after an earlier call '{case['pre']}' with the same argument objects)" if case.get('pre') else '')
+    r = _judge(case, m['made'][1], impl['parsed'], impl['strict'])
+    if r is None and case.get('pre') == 'same':
+        f1 = m.get('first')
+        if f1 is None or f1[0] != 'ok':
+            return f"the same call made once before (same argument objects) raised {None if f1 is None else f1[1]}"
+        o1 = impl['first']
+        r = _judge(case, o1['wire'] or m['made'][1], o1['parsed'], o1['strict'])
+        if r:
+            return 'first of two identical calls: ' + r
+    elif r is not None and case.get('pre'):
+        return r + f" (after an earlier call '{case['pre']}' with the same argument objects)"
+    return r
+
+
+def _judge(case, wire_hex, p, strict):
+    """the statement, for one packet built from the inputs of `case`"""
+    if strict != 'ok':
+        return f"the wire is not exactly one well-formed, exactly-sized, minimal TLV element: {strict}"
     if p['res'] != 'ok':
         return f"the library cannot parse its own packet: {p['err']}"
     name = list(case['name'])
@@ -241,7 +268,7 @@ def oracle(case, impl):
             # "the parameters-digest component": by the packet format it is the SHA-256 of the bytes from the
             # ApplicationParameters element to the end of the Interest, as they are on the wire
             dg = [c for c in got if c.startswith('0220') and len(c) == 68]
-            want = _params_digest(bytes.fromhex(m['made'][1]))
+            want = _params_digest(bytes.fromhex(wire_hex))
             if want is not None and (len(dg) != 1 or dg[0][4:] != want):
                 return ('the ParametersSha256Digest component of the parsed name is not the SHA-256 of the wire bytes '
                         'from ApplicationParameters to the end of the Interest')
@@ -300,6 +327,9 @@ def tags(case, impl):
          'nameform:' + (case.get('name_form') or 'comps')]
     if case.get('key_name') is not None:
         t.append('keyname:given')
+    for k in ('payload_form', 'key_form', 'obj_form', 'pre', 'parse_form'):
+        if case.get(k) is not None:
+            t.append(f'{k}:{case[k]}')
     if impl['made']['made'][0] == 'ok':
         n = len(impl['made']['made'][1]) // 2
         t.append('size:' + ('<253' if n < 253 else '253..259' if n < 260 else '<65536' if n < 65536 else '>=65536'))
